@@ -41,6 +41,10 @@ func vfC04(w *vfWorld) {
 		vfC04Concurrent(w)
 		return
 	}
+	if t.Prob("c04.entra", 90) {
+		vfC04Entra(w)
+		return
+	}
 	cs := &vfC04Case{Accepted: map[string]int{}, Rejected: map[string]int{}}
 	w.sample = cs
 	cfg := vfDefaultCfg()
@@ -720,4 +724,166 @@ func vfC04Concurrent(w *vfWorld) {
 	})
 	judge("after concurrent refreshes")
 	w.distKey = fmt.Sprintf("concurrent/%v/%d/%s", lacks, len(cl), cfg.Store)
+}
+
+// vfC04Entra: the Microsoft Entra ID flavour of the OIDC provider, reached over TLS. A single-tenant application pins its issuer;
+// a multi-tenant application (documented set-up: the "common" issuer URL + --insecure-oidc-skip-issuer-verification) admits ID
+// tokens whose issuer follows the template https://login.microsoftonline.com/<tenant>/v2.0 and, when a list of allowed tenants
+// is configured, only those tenants. Issuer variants are presented at the login callback and in refresh answers.
+func vfC04Entra(w *vfWorld) {
+	t := w.tape
+	cs := &vfC04Case{Accepted: map[string]int{}, Rejected: map[string]int{}}
+	w.sample = cs
+	cfg := vfDefaultCfg()
+	cfg.Store = vfPick(t, "c04e.store", []string{"cookie", "redis"})
+	cs.Store = cfg.Store
+	cfg.CookieRefresh, cfg.CookieExpire = 10*time.Minute, 48*time.Hour
+	const base = "https://login.microsoftonline.com"
+	multi := t.Bool("c04e.multi-tenant")
+	allowed := [][]string{nil, {"tenant-a"}, {"tenant-b", "tenant-a"}, {"tenant-b"}}[t.Choice("c04e.allowed", 4)]
+	cfg.Provider = "entra-id"
+	cfg.IdpURL = base + "/tenant-a/v2.0"
+	if multi {
+		cfg.IdpURL = base + "/common/v2.0"
+		cfg.Extra = append(cfg.Extra, "--insecure-oidc-skip-issuer-verification=true")
+	}
+	cfg.Extra = append(cfg.Extra, "--provider-ca-file="+w.writeFile("sim-ca.pem", vfTLSMaterial().CAPEM), "--pass-access-token=true", "--set-xauthrequest=true")
+	for _, a := range allowed {
+		cfg.Extra = append(cfg.Extra, "--entra-id-allowed-tenant="+a)
+	}
+	cs.Keys = fmt.Sprintf("entra-id multi=%v allowed=%v", multi, allowed)
+	w.idpURL = cfg.IdpURL
+	idp := w.StartIdP()
+	idp.IDTokenTTL, idp.AccessTTL = 30*time.Hour, 30*time.Hour
+	if multi {
+		idp.DiscoveryExtra = map[string]interface{}{"issuer": base + "/{tenantid}/v2.0"}
+	}
+	idp.AddUser(&vfUser{Name: "mallory", Sub: "sub-mallory", Email: "mallory@evil.example", EmailVerified: true, PreferredUsername: "mallory"})
+	reps := w.Standard(cfg, 1)
+	rep := reps[0]
+	pp := cfg.ProxyPrefix
+	type variant struct {
+		name   string
+		iss    interface{}
+		tenant string // tenant the issuer names when it follows the template, "" otherwise
+	}
+	vs := []variant{
+		{"tenant-a", base + "/tenant-a/v2.0", "tenant-a"}, {"tenant-b", base + "/tenant-b/v2.0", "tenant-b"}, {"tenant-c", base + "/tenant-c/v2.0", "tenant-c"},
+		{"guid", base + "/9188040d-6c67-4c5b-b112-36a304b66dad/v2.0", "9188040d-6c67-4c5b-b112-36a304b66dad"},
+		{"trailing-slash", base + "/tenant-a/v2.0/", ""}, {"suffix", base + "/tenant-a/v2.0/x", ""}, {"v1", base + "/tenant-a/v1.0", ""},
+		{"http", "http://login.microsoftonline.com/tenant-a/v2.0", ""}, {"other-host", "https://login.microsoftonline.com.evil.sim/tenant-a/v2.0", ""},
+		{"prefix", "x" + base + "/tenant-a/v2.0", ""}, {"nested", base + "/tenant-a/evil/v2.0", ""}, {"dot", base + "/tenant-a.evil/v2.0", ""},
+		{"unescaped-dot", "https://loginxmicrosoftonline.com/tenant-a/v2.0", ""}, {"empty-tenant", base + "//v2.0", ""},
+		{"newline", base + "/tenant-b/v2.0\n" + base + "/tenant-a/v2.0", ""}, {"number", 7, ""}, {"absent", nil, ""}, {"list", []string{base + "/tenant-a/v2.0"}, ""},
+	}
+	accept := func(v variant) bool {
+		if v.tenant == "" {
+			return false
+		}
+		if !multi && v.tenant != "tenant-a" {
+			return false // the issuer is pinned to the configured one
+		}
+		if len(allowed) == 0 {
+			return true // "When not specified, all tenants are allowed"
+		}
+		for _, a := range allowed {
+			if a == v.tenant {
+				return true
+			}
+		}
+		return false
+	}
+	var cur *variant
+	curKind, curUser := "", ""
+	idp.Mint = func(m *vfMintCtx) {
+		if m.Claims != nil && multi {
+			m.Claims["iss"] = base + "/tenant-a/v2.0" // a multi-tenant application's tokens name the user's home tenant, never "common"
+		}
+		if cur == nil || m.Claims == nil || m.Kind != curKind {
+			return
+		}
+		if cur.iss == nil {
+			delete(m.Claims, "iss")
+		} else {
+			m.Claims["iss"] = cur.iss
+		}
+		if curUser != "" {
+			u := idp.users[curUser]
+			m.Claims["sub"], m.Claims["email"], m.Claims["preferred_username"] = u.Sub, u.Email, u.PreferredUsername
+		}
+	}
+	nb := 0
+	newBrowser := func() *vfBrowser {
+		nb++
+		return w.NewBrowser(fmt.Sprintf("B%d", nb), fmt.Sprintf("192.0.2.%d:4000", 10+nb%200))
+	}
+	n := 6 + t.Choice("c04e.n", 8)
+	for i := 0; i < n; i++ {
+		v := vs[t.Choice("c04e.variant", len(vs))]
+		ok := accept(v)
+		b := newBrowser()
+		if t.Bool("c04e.path") {
+			// ---- login callback ----
+			lg, _ := b.StartLogin(rep, pp+"/start?rd=%2Fapp", "alice")
+			if lg == nil {
+				w.fatalf("c04e: login start failed")
+			}
+			cur, curKind, curUser = &v, "code", ""
+			cb := b.GET(rep, lg.CallbackTarget(pp))
+			cur = nil
+			got := cb.Status == 302 && vfSessionCookieSet(cb, cfg.CookieName)
+			f := b.GET(rep, "/app/after-login")
+			served := len(f.UpHits) > 0
+			cs.Tokens++
+			w.nontriv = true
+			if !ok && (got && !vfHasDeletion(cb, cfg.CookieName) || served) {
+				w.violate("C04", "bad-token-accepted", "entra-login/"+v.name, "login path: an ID token whose issuer is %q was accepted (callback %d, session cookie %v, next request served %v); configuration: %s", fmt.Sprint(v.iss), cb.Status, got, served, cs.Keys)
+			}
+			if ok && (!got || !served) {
+				w.violate("C04", "good-token-refused", "entra-login/"+v.name, "login path: an ID token of the admitted tenant %s was refused (callback %d, next request %d); configuration: %s", v.tenant, cb.Status, f.Status, cs.Keys)
+			}
+			if ok {
+				cs.Accepted["entra-login"]++
+			} else {
+				cs.Rejected["entra-login"]++
+			}
+			continue
+		}
+		// ---- refresh: an honest login first (possible only when tenant-a is admitted) ----
+		if !accept(vs[0]) {
+			continue
+		}
+		if _, cb := b.Login(rep, pp+"/start?rd=%2Fapp", "alice"); cb == nil || cb.Status != 302 {
+			w.violate("C04", "good-token-refused", "entra-login/tenant-a", "honest login of the admitted tenant refused; configuration: %s", cs.Keys)
+		}
+		w.Sleep(cfg.CookieRefresh + time.Minute)
+		cur, curKind, curUser = &v, "refresh", "mallory"
+		if ok {
+			curUser = ""
+		}
+		r := b.GET(rep, "/app/after-refresh")
+		cur = nil
+		cs.Tokens++
+		w.nontriv = true
+		for _, h := range r.UpHits {
+			if em := h.Get("X-Forwarded-Email"); em == "mallory@evil.example" {
+				w.violate("C04", "bad-token-accepted", "entra-refresh/"+v.name, "refresh path: the identity of a refresh answer whose ID token names the issuer %q reached the upstream; configuration: %s", fmt.Sprint(v.iss), cs.Keys)
+			}
+		}
+		f := b.GET(rep, "/app/after-refresh-2")
+		for _, h := range f.UpHits {
+			if em := h.Get("X-Forwarded-Email"); em == "mallory@evil.example" {
+				w.violate("C04", "bad-token-accepted", "entra-refresh/"+v.name, "refresh path: the identity of a refresh answer whose ID token names the issuer %q was kept in the session; configuration: %s", fmt.Sprint(v.iss), cs.Keys)
+			}
+		}
+		if ok && len(r.UpHits) == 0 {
+			w.violate("C04", "good-token-refused", "entra-refresh/"+v.name, "refresh path: a refresh answer of the admitted tenant %s was refused (status %d); configuration: %s", v.tenant, r.Status, cs.Keys)
+		}
+		if ok {
+			cs.Accepted["entra-refresh"]++
+		} else {
+			cs.Rejected["entra-refresh"]++
+		}
+	}
+	w.distKey = cs.Keys + fmt.Sprint(cs.Tokens)
 }
